@@ -90,6 +90,8 @@ def run(c):
     for m, ws in bym.items():
         full = merge_wants(m, ws)
         cases.append(dict(k="rt", m=m, mand=full["mand"], opt=full["opt"], via="body"))
+        for fv in fill_variants(m, full):               # every element of the message with each adversarial content fill
+            cases.append(dict(k="rt", m=m, mand=fv["mand"], opt=fv["opt"], via="body"))
         for _ in range(4 if not thorough else 40):
             sub = merge_wants(m, rng.sample(ws, min(len(ws), rng.randint(2, 6))))
             cases.append(dict(k="rt", m=m, mand=sub["mand"], opt=sub["opt"], via="body" if TBL[m]["family"] == "ENV" else "plain"))
